@@ -5,6 +5,12 @@ Effect of one statement on `self` (which is the fresh shallow copy made by _gene
   ("mutate", attr)   self.attr.append/extend/add/update/... , self.attr[k] = v, del self.attr[k],
                      self.attr += <not provably immutable>
   ("call", name)     self.name(...)  - resolved against the same class body (one level), else "opaque"
+  local aliases: `x = self.attr` / `x = getattr(self, name)` makes x an alias of the object held by the copy (which the
+                     parent shares); x.b = v, x[k] = v, x.append(..) are ("mutate", attr) until x is re-assigned
+  setattr(self, name, v) is ("rebind", name-or-"<setattr>")
+  extension protocol: a helper that hands `self` to `<ext>.apply_to_<kind>(self)` is followed into every apply_to_*
+                     method of the scanned files (each may only call stmt.apply_syntax_extension_point(..),
+                     stmt.<generative>.non_generative(stmt), or assign stmt.attr) and into apply_syntax_extension_point
 Anything the classifier does not understand that touches `self.<attr>` as a store target fails closed.
 """
 from __future__ import annotations
@@ -30,6 +36,7 @@ FILES = [
     "lib/sqlalchemy/dialects/postgresql/dml.py",
     "lib/sqlalchemy/dialects/sqlite/dml.py",
     "lib/sqlalchemy/dialects/mysql/dml.py",
+    "lib/sqlalchemy/dialects/postgresql/ext.py",
     "lib/sqlalchemy/ext/baked.py",
 ]
 
@@ -38,8 +45,25 @@ class Fail(Exception):
     pass
 
 
+_SELF = ["self"]
+
+
 def _is_self_attr(node):
-    return isinstance(node, ast.Attribute) and isinstance(node.value, ast.Name) and node.value.id == "self"
+    return isinstance(node, ast.Attribute) and isinstance(node.value, ast.Name) and node.value.id == _SELF[0]
+
+
+def _is_self(node):
+    return isinstance(node, ast.Name) and node.id == _SELF[0]
+
+
+def _alias_source(node):
+    """`self.attr` or `getattr(self, ...)`: the attribute whose object the value aliases, else None"""
+    if _is_self_attr(node):
+        return node.attr
+    if isinstance(node, ast.Call) and isinstance(node.func, ast.Name) and node.func.id == "getattr" and node.args and _is_self(node.args[0]):
+        a = node.args[1] if len(node.args) > 1 else None
+        return a.value if isinstance(a, ast.Constant) and isinstance(a.value, str) else "<getattr>"
+    return None
 
 
 def _tuple_like(node):
@@ -59,8 +83,17 @@ def _tuple_like(node):
     return False
 
 
-def effects_of(fn: ast.FunctionDef):
+def effects_of(fn: ast.FunctionDef, selfname="self"):
+    _SELF[0] = selfname
+    try:
+        return _effects_of(fn)
+    finally:
+        _SELF[0] = "self"
+
+
+def _effects_of(fn: ast.FunctionDef):
     out = []
+    aliases = {}
 
     def store(t, aug=None):
         if _is_self_attr(t):
@@ -77,6 +110,11 @@ def effects_of(fn: ast.FunctionDef):
         elif isinstance(t, ast.Attribute) and isinstance(t.value, ast.Attribute) and _is_self_attr(t.value):
             # self.a.b = v : mutation of the object held in self.a
             out.append(("mutate", t.value.attr))
+        elif isinstance(t, (ast.Attribute, ast.Subscript)) and isinstance(t.value, ast.Name) and t.value.id in aliases:
+            # x = self.a ; x.b = v / x[k] = v : mutation of the object held in self.a through a local alias
+            out.append(("mutate", aliases[t.value.id]))
+        elif isinstance(t, ast.Name):
+            aliases.pop(t.id, None)
 
     class V(ast.NodeVisitor):
         def visit_FunctionDef(self, node):
@@ -93,11 +131,19 @@ def effects_of(fn: ast.FunctionDef):
             self.visit(node.value)
             for t in node.targets:
                 store(t)
+            src = _alias_source(node.value)
+            if src is not None:
+                for t in node.targets:
+                    if isinstance(t, ast.Name):
+                        aliases[t.id] = src
 
         def visit_AnnAssign(self, node):
             if node.value is not None:
                 self.visit(node.value)
                 store(node.target)
+                src = _alias_source(node.value)
+                if src is not None and isinstance(node.target, ast.Name):
+                    aliases[node.target.id] = src
 
         def visit_AugAssign(self, node):
             self.visit(node.value)
@@ -122,8 +168,18 @@ def effects_of(fn: ast.FunctionDef):
             if isinstance(f, ast.Attribute):
                 if _is_self_attr(f.value) and f.attr in MUTATORS:
                     out.append(("mutate", f.value.attr))
-                elif isinstance(f.value, ast.Name) and f.value.id == "self":
+                elif isinstance(f.value, ast.Name) and f.value.id in aliases and f.attr in MUTATORS:
+                    out.append(("mutate", aliases[f.value.id]))
+                elif _is_self(f.value):
                     out.append(("call", f.attr))
+                elif f.attr.startswith("apply_to_") and any(_is_self(a) for a in node.args):
+                    out.append(("call", "<apply_to>"))
+                elif (f.attr == "non_generative" and isinstance(f.value, ast.Attribute) and _is_self(f.value.value)
+                      and any(_is_self(a) for a in node.args)):
+                    out.append(("callgen", f.value.attr))
+            elif isinstance(f, ast.Name) and f.id == "setattr" and node.args and _is_self(node.args[0]):
+                a = node.args[1] if len(node.args) > 1 else None
+                out.append(("rebind", a.value if isinstance(a, ast.Constant) and isinstance(a.value, str) else "<setattr>"))
             self.generic_visit(node)
 
     V().visit(fn)
@@ -157,26 +213,73 @@ def scan(repo):
         for name, m in methods.items():
             by_name.setdefault(name, []).append(m)
 
-    def helper(methods, name):
-        h = methods.get(name)
-        if h is None and len(by_name.get(name, [])) == 1:
-            h = by_name[name][0]
-        return h
+    # the extension protocol: every apply_to_<kind>(self, stmt) of the scanned files, classified with `stmt` as the
+    # statement; anything it does with stmt other than the three allowed forms fails closed
+    apply_to = []
+    for rel, cls, methods in classes:
+        for name, m in methods.items():
+            if name.startswith("apply_to_") and len(m.args.args) >= 2:
+                if len(m.body) == 1 and isinstance(m.body[0], ast.Raise):
+                    continue
+                if all(isinstance(b, (ast.Raise, ast.Expr)) for b in m.body) and any(isinstance(b, ast.Raise) for b in m.body):
+                    continue  # docstring + raise NotImplementedError
+                st = m.args.args[1].arg
+                for n in ast.walk(m):
+                    if isinstance(n, ast.Call) and any(isinstance(a, ast.Name) and a.id == st for a in list(n.args) + [k.value for k in n.keywords]):
+                        f = n.func
+                        ok = isinstance(f, ast.Attribute) and f.attr == "non_generative"
+                        if not ok:
+                            raise Fail("%s.%s hands the statement to %s" % (cls.name, name, ast.unparse(f)))
+                apply_to.append((cls.name + "." + name, effects_of(m, st)))
+
+    def _abstract(m):
+        body = [b for b in m.body if not (isinstance(b, ast.Expr) and isinstance(b.value, ast.Constant))]
+        return len(body) == 1 and isinstance(body[0], ast.Raise)
+
+    def defs_of(methods, name):
+        """the definition in the same class; an abstract one (raise NotImplementedError) stands for all its overrides;
+        a name not defined in the class resolves to its unique definition among the scanned files"""
+        if name in methods and not _abstract(methods[name]):
+            return [methods[name]]
+        others = [m for m in by_name.get(name, []) if not _abstract(m)]
+        if name in methods:
+            return others
+        return others if len(others) == 1 else []
+
+    def expand(methods, effs, depth, seen):
+        out = []
+        for e in effs:
+            if e[0] == "callgen":
+                # stmt.<generative method>.non_generative(stmt): the effects of every generative method of that name
+                gs = [m for m in by_name.get(e[1], []) if _decorated_generative(m)]
+                if not gs or depth >= 4:
+                    out.append(("opaque", e[1]))
+                for g in gs:
+                    out.extend(expand(methods, effects_of(g), depth + 1, seen | {e[1]}))
+                continue
+            if e[0] != "call":
+                out.append(e)
+                continue
+            if e[1] == "<apply_to>":
+                for _n, ae in apply_to:
+                    out.extend(expand(methods, ae, depth + 1, seen))
+                continue
+            ds = [d for d in defs_of(methods, e[1])]
+            if not ds or depth >= 4 or e[1] in seen:
+                out.append(("opaque", e[1]))
+                continue
+            for h in ds:
+                sub = effects_of(h) if not _decorated_generative(h) else effects_of(h)
+                out.extend(expand(methods, sub, depth + 1, seen | {e[1]}))
+        return out
 
     for rel, cls, methods in classes:
         for name, m in methods.items():
             if not _decorated_generative(m):
                 continue
             eff = []
-            for e in effects_of(m):
-                if e[0] == "call":
-                    h = helper(methods, e[1])
-                    if h is not None and not _decorated_generative(h):
-                        for e2 in effects_of(h):
-                            eff.append(e2 if e2[0] != "call" else ("opaque", e2[1]))
-                    else:
-                        eff.append(("opaque", e[1]))
-                else:
+            for e in expand(methods, effects_of(m), 0, frozenset()):
+                if e not in eff:  # first occurrences, in order (enough to decide "mutated before rebound")
                     eff.append(e)
             table["%s:%s.%s" % (rel[len("lib/"):-3].replace("/", "."), cls.name, name)] = eff
     return table
